@@ -6,4 +6,5 @@ unset GOSUMDB
 mkdir -p bin evidence
 cp /repo/go.sum go.sum
 go build -tags verif -o bin/vcheck ./cmd/vcheck || exit 1
+(cd /repo && go build -tags verif -o /verif/bin/gleece . && go build -o /verif/bin/gleece-plain .) || exit 1
 echo setup ok
